@@ -10,7 +10,9 @@ EXPLANATION = ("Ordering rules on MIR: (header-first) in generate_dump the first
                "before any section writer; (bytes-before-dirent) inside DirSection::write_to_file(Some(d)) the append of the new "
                "image bytes reaches the destination before the directory entry that names them; dump_dir_entry has no other caller; "
                "(stream-then-flush) each directory entry handed to write_to_file was produced after the previous flush, and "
-               "blobs referenced across streams (memory descriptors, crash context) are produced by an earlier or the same writer.")
+               "blobs referenced across streams (memory descriptors, crash context) are produced by an earlier or the same writer; "
+               "(append-position) every seek goes either to start_offset + slot rva or back to the position saved before it, so each flush "
+               "appends directly behind the previous one wherever the destination started.")
 TRUSTED = ["a write_all that returned has delivered its bytes in order (no torn-write model)"]
 ASSUMPTIONS = ["crash points are boundaries between destination write/seek calls; torn writes inside one write_all and file-system durability are out of scope",
                "mac writer not analysable on this host; it shares DirSection, so bytes-before-dirent covers its flush order"]
@@ -181,3 +183,7 @@ def run(ctx):
     rule_header_first(ctx)
     rule_bytes_before_dirent(ctx)
     rule_stream_then_flush(ctx)
+    # a prefix is only consistent if every append lands directly behind the previous one: after patching a directory slot the
+    # destination position must be put back where it was (same rule instances as C09/seek-targets and C09/save-restore)
+    c09.rule_seek_targets(ctx, R="C10/append-position")
+    c09.rule_save_restore(ctx, R="C10/append-position-restore")
